@@ -11,6 +11,7 @@ from usim import time, Scope, Queue, StreamClosed, instant
 from ..engine import EQ, GE, LE, LT, GT, AND, OR, NOT, IMPLIES, MAX, MIN
 from ..explore import Family
 from ..kit import Log, simulate, now, classify_run_exception, Fault
+from . import c18 as _c18
 
 BOUNDS = ('np<=2 producers x 2 puts with gaps in [0,15], nc<=2 consumers starting in [0,15] '
           '(two single gets, or iteration), close at z in [0,40] or never, one fault '
@@ -22,8 +23,11 @@ SINGLE, ITERATE = 0, 1
 
 
 def fam_queue(E, np_, nc, fault_kinds, close_modes=2, real=False, pmax=2, placements=True,
-              victims=None):
-    gaps = [[E.num('g%d_%d' % (i, j), 0, 15, real=real) for j in range(2)] for i in range(np_)]
+              victims=None, nputs=2, burst=False):
+    # burst: only the date of the first put is symbolic, the others follow at once, so that a
+    # backlog builds up in the buffer before the consumers arrive / the queue is closed
+    gaps = [[E.num('g%d_%d' % (i, j), 0, 15, real=real) if not (burst and j) else E.const(0)
+             for j in range(nputs)] for i in range(np_)]
     starts = [E.num('s%d' % i, 0, 15, real=real) for i in range(nc)]
     ckind = [E.pick('ck%d' % i, 2) for i in range(nc)]
     closing = E.pick('closing', close_modes) == 1
@@ -41,7 +45,7 @@ def fam_queue(E, np_, nc, fault_kinds, close_modes=2, real=False, pmax=2, placem
     def producer(i):
         async def run():
             name = 'p%d' % i
-            for j in range(2):
+            for j in range(nputs):
                 await (time + gaps[i][j])
                 item = (i, j)
                 log(name, 'put-call', item)
@@ -155,6 +159,14 @@ def fam_queue(E, np_, nc, fault_kinds, close_modes=2, real=False, pmax=2, placem
         for c2 in done:
             if c1[1] < c2[1]:
                 E.prove(c1[2] < c2[2], 'no-overtaking-among-receivers')
+    # ... also not a get that ends with StreamClosed: an item handed to a get that started
+    # later would have been its item
+    for c1 in calls:
+        if c1[3] == 'closed' and c1[0] != victim:
+            for c2 in done:
+                E.prove(not c1[1] < c2[1], 'no-overtaking-among-receivers',
+                        ('%s asked at %d and saw StreamClosed, %s asked at %d and got an item',
+                         c1[0], c1[1], c2[0], c2[1]))
     # unfaulted receivers always complete (the drainer closes the queue in the end)
     for c in calls:
         if c[0] != victim:
@@ -199,6 +211,18 @@ FAMILIES = [
                       victims=['c1']),
            reach=['cancel', 'close', 'fault-hits-waiting-receiver'],
            bounds='1 producer x 2 puts, 2 consumers, the second consumer cancelled / closed at (c,p)'),
+    Family('backlog', fam_queue,
+           quick=dict(np_=1, nc=2, fault_kinds=[Fault.NONE], nputs=3, burst=True),
+           thorough=dict(np_=1, nc=2, fault_kinds=[Fault.NONE, Fault.CANCEL], nputs=4, burst=True,
+                         placements=False, victims=['c1']),
+           reach=['none', 'closed-seen'],
+           bounds='1 producer putting 3 (thorough 4) items in a burst, 2 consumers arriving at '
+                  'symbolic dates, close at a symbolic date: a backlog is shared by two receivers, '
+                  'also after the close'),
+    Family('process_receiver', _c18.fam_queue_process, quick=dict(), thorough=dict(real=True),
+           reach=['interrupt-in-the-time-step-of-a-put'],
+           bounds='the receiver is a SimPy-layer process (`yield queue`) that is interrupted at '
+                  'symbolic dates, also in the time step of a put (harness shared with C18)'),
     Family('p1c2', fam_queue,
            thorough=dict(np_=1, nc=2, fault_kinds=ALLF, pmax=2, placements=False,
                          victims=['p0', 'c0']),
